@@ -141,6 +141,9 @@ def families():
         t.append(dev + ".macro m\n.db " + "@0" * 20000 + "\n.endm\nm " + "1" * 20000 + "\n")
         t.append(dev + ".macro m\n.db " + ",".join(["@0"] * 16000) + "\n.endm\nm " + "+".join(["1"] * 8000) + "\n")
         t.append(dev + ".macro m\n.db " + "@0@1@2@3@4@5@6@7@8@9" * 3000 + "\n.endm\nm " + ", ".join(["1" * 6000] * 10) + "\n")
+        # few calls, many lines: 100 x 100 x 8000
+        t.append(dev + ".macro a\n" + "nop\n" * 8000 + ".endm\n.macro b\n" + "a\n" * 100 + ".endm\n.macro c\n" + "b\n" * 100 + ".endm\n" + "c\n" * 19)
+        t.append(dev + ".macro a\n" + ".equ q = 1\n" * 4000 + ".endm\n.macro b\n" + "a\n" * 200 + ".endm\n" + "b\n" * 900)
         t.append(dev + "nop\n" * 30000)
         t.append(dev + ".db " + ", ".join(["1"] * 30000) + "\n")
     return t
@@ -163,6 +166,8 @@ def hostile_trees():
     trees.append(({"main.asm": "".join(".include \"i%d.inc\"\n" % i for i in range(200)), **{"i%d.inc" % i: "nop\n" for i in range(200)}}, "main.asm"))
     trees.append(({"main.asm": ".include \"i0.inc\"\n", **{"i%d.inc" % i: "nop\n.include \"i%d.inc\"\n" % (i + 1) for i in range(20)}, "i20.inc": "nop\n"}, "main.asm"))
     trees.append(({"main.asm": ".include \"i0.inc\"\n", **{"i%d.inc" % i: "nop\n.include \"i%d.inc\"\n" % (i + 1) for i in range(400)}, "i400.inc": "nop\n"}, "main.asm"))
+    trees.append(({"main.asm": ".include \"pipe\"\nnop\n", "pipe": "<fifo>"}, "main.asm"))            # a pipe nobody writes to
+    trees.append(({"main.asm": ".includepath \"d\"\n.include \"x\"\nnop\n", "x/keep": "", "d/x": "ret\n"}, "main.asm"))   # a directory of the included name
     trees.append(({}, "/dev/zero"))
     trees.append(({}, "/"))
     trees.append(({}, ""))
@@ -262,7 +267,8 @@ def check(prop, tier, seed):
         trees = hostile_trees()
         tjobs = []
         for j, (files, main) in enumerate(trees):
-            tjobs.append({"k": "file", "id": j, "root": scratch.sub("tree%d" % j), "files": files, "cwd": "", "main": main, "paths": []})
+            tjobs.append({"k": "file", "id": j, "root": scratch.sub("tree%d" % j), "files": {k: v for k, v in files.items() if v != "<fifo>"},
+                          "fifos": [k for k, v in files.items() if v == "<fifo>"], "cwd": "", "main": main, "paths": []})
         tres = run_jobs(tjobs, watchdog=WATCHDOG, as_bytes=AS_LIMIT, workers=4)
         for j, (files, main) in enumerate(trees):
             oc = classify(tres[j])
